@@ -117,9 +117,17 @@ func rootGlobal(v ssa.Value) *ssa.Global {
 
 // initState executes the inits of sp and its repo dependencies.
 func (vc *VC) initState(sp *ssa.Package) (*State, error) {
+	return vc.runInits(sp, true)
+}
+
+func (vc *VC) runInits(sp *ssa.Package, includeSelf bool) (*State, error) {
 	st := &State{mem: map[*Cell]Val{}}
 	var err error
-	for _, p := range vc.eng.repoDeps(sp) {
+	deps := vc.eng.repoDeps(sp)
+	if !includeSelf {
+		deps = deps[:len(deps)-1]
+	}
+	for _, p := range deps {
 		initFn := p.Func("init")
 		if initFn == nil {
 			vc.initDone[p] = true
@@ -184,6 +192,26 @@ func (vc *VC) evalInv(inv *PkgInv, st *State) Term {
 
 // entryState: post-init state with mutable globals havocked under the package invariants.
 func (vc *VC) entryState(sp *ssa.Package) (*State, error) {
+	if vc.entryCache == nil {
+		vc.entryCache = map[*ssa.Package]*State{}
+		vc.entryErr = map[*ssa.Package]error{}
+	}
+	if e, ok := vc.entryErr[sp]; ok {
+		return nil, e
+	}
+	if c, ok := vc.entryCache[sp]; ok {
+		return c.Clone(), nil
+	}
+	st, err := vc.entryStateUncached(sp)
+	if err != nil {
+		vc.entryErr[sp] = err
+		return nil, err
+	}
+	vc.entryCache[sp] = st
+	return st.Clone(), nil
+}
+
+func (vc *VC) entryStateUncached(sp *ssa.Package) (*State, error) {
 	st, err := vc.initState(sp)
 	if err != nil {
 		return nil, err
@@ -227,14 +255,61 @@ func unionProps(fc *FuncContract) []string {
 	return sortedKeys(m)
 }
 
-// verifyFunction generates the obligations of one function under one mode.
+// verifyFunction generates the obligations of one function under one mode: one general
+// run plus one run per declared case (a case binds a symbolic input to a constant so that
+// the executor's constant folding applies; clauses marked case=NAME are checked there).
 func (vc *VC) verifyFunction(fn *ssa.Function) (rep *FuncReport) {
 	key := fn.Pkg.Pkg.Name() + "." + fnKey(fn)
 	rep = &FuncReport{Key: key, Mode: vc.mode.Name}
-	vc.curFunc = key
 	fc := vc.eng.contractFor(fn, vc.mode)
 	if fc == nil {
 		fc = &FuncContract{Key: key, Fn: fn, Loops: map[int]*LoopContract{}}
+	}
+	vc.verifyRun(fn, fc, key, "", rep)
+	for _, cd := range fc.Cases {
+		if rep.Error != "" {
+			break
+		}
+		vc.verifyRun(fn, fc, key, cd.Name, rep)
+	}
+	return rep
+}
+
+func substVal(v Val, name string, c Term) Val {
+	switch x := v.(type) {
+	case Term:
+		if x.E == name {
+			r := c
+			r.Signed = x.Signed
+			return r
+		}
+		return x
+	case StructVal:
+		r := StructVal{F: make([]Val, len(x.F))}
+		for i := range x.F {
+			r.F[i] = substVal(x.F[i], name, c)
+		}
+		return r
+	case ArrVal:
+		r := ArrVal{E: make([]Val, len(x.E))}
+		for i := range x.E {
+			r.E[i] = substVal(x.E[i], name, c)
+		}
+		return r
+	case TupleVal:
+		r := make(TupleVal, len(x))
+		for i := range x {
+			r[i] = substVal(x[i], name, c)
+		}
+		return r
+	}
+	return v
+}
+
+func (vc *VC) verifyRun(fn *ssa.Function, fc *FuncContract, key, caseName string, rep *FuncReport) {
+	vc.curFunc = key
+	if caseName != "" {
+		vc.curFunc = key + "[" + caseName + "]"
 	}
 	vc.curProps = unionProps(fc)
 	defer func() {
@@ -252,30 +327,22 @@ func (vc *VC) verifyFunction(fn *ssa.Function) (rep *FuncReport) {
 	}()
 	isInit := fn.Name() == "init" && fn.Synthetic != ""
 	var st *State
+	var err error
 	if isInit {
-		// verify the package invariants are established by init
-		var err error
 		st, err = vc.initStateExcluding(fn.Pkg)
-		if err != nil {
-			rep.Error = err.Error()
-			return
-		}
 	} else {
-		var err error
 		st, err = vc.entryState(fn.Pkg)
-		if err != nil {
-			rep.Error = err.Error()
-			return
-		}
 	}
-	// parameters
+	if err != nil {
+		rep.Error = err.Error()
+		return
+	}
 	var args []Val
 	for _, p := range fn.Params {
 		args = append(args, vc.fresh(p.Type(), p.Name(), st))
 	}
 	var bind []Val
 	for _, fv := range fn.FreeVars {
-		// closures verified standalone: free variables are fresh cells
 		bind = append(bind, vc.fresh(fv.Type(), fv.Name(), st))
 	}
 	top := &Frame{fn: fn, env: map[ssa.Value]Val{}, ghost: map[string]Val{}}
@@ -293,6 +360,48 @@ func (vc *VC) verifyFunction(fn *ssa.Function) (rep *FuncReport) {
 		top.ghost[g.Name] = vc.fresh(T, "ghost."+g.Name, st)
 	}
 	top.entrySt = st
+	if caseName != "" {
+		for _, cd := range fc.Cases {
+			if cd.Name != caseName {
+				continue
+			}
+			env := &SpecEnv{vc: vc, fr: top, st: st, old: st, pkg: fn.Pkg}
+			lhs := env.term(cd.LHS)
+			rv := env.eval(cd.RHS)
+			rhs := env.asTerm(env.coerce(rv, SV{V: lhs}), "case constant")
+			if !vc.declNames[lhs.E] && !vc.isDeclared(lhs.E) {
+				panic(specError{"case " + caseName + ": left-hand side is not a symbolic input constant"})
+			}
+			if !rhs.IsConst() {
+				panic(specError{"case " + caseName + ": right-hand side is not a constant"})
+			}
+			for i := range args {
+				args[i] = substVal(args[i], lhs.E, rhs)
+				top.env[fn.Params[i]] = args[i]
+			}
+			for k, v := range vc.pureCache {
+				nv := make([]Val, len(v))
+				for i := range v {
+					nv[i] = substVal(v[i], lhs.E, rhs)
+				}
+				vc.pureCache[k] = nv
+			}
+			// pointee cells of pointer parameters
+			for c, v := range st.mem {
+				if c.Kind == "param" {
+					st.mem[c] = substVal(v, lhs.E, rhs)
+				}
+			}
+			defer func(name string) {
+				// the binding is local to this run
+				for k := range vc.pureCache {
+					if strings.HasPrefix(k, "symiface|") {
+						delete(vc.pureCache, k)
+					}
+				}
+			}(lhs.E)
+		}
+	}
 	for _, c := range fc.Clauses {
 		if c.Kind == "requires" {
 			st.Assume(vc.evalSpecTerm(top, st, c.Expr, nil))
@@ -302,7 +411,7 @@ func (vc *VC) verifyFunction(fn *ssa.Function) (rep *FuncReport) {
 	vc.eng.forceInline[fn] = true
 	outs := vc.callFunctionTop(fn, args, bind, st, top, entry)
 	delete(vc.eng.forceInline, fn)
-	rep.Paths = len(outs)
+	rep.Paths += len(outs)
 	invs := vc.pkgInvsOf(fn.Pkg)
 	ncover := 0
 	for _, o := range outs {
@@ -323,6 +432,9 @@ func (vc *VC) verifyFunction(fn *ssa.Function) (rep *FuncReport) {
 		}
 		bound := vc.bindResults(fn, o.Ret)
 		for _, c := range fc.Clauses {
+			if c.Case != caseName {
+				continue
+			}
 			switch c.Kind {
 			case "ensures":
 				t := vc.evalSpecTerm(pf, o.St, c.Expr, bound)
@@ -332,14 +444,13 @@ func (vc *VC) verifyFunction(fn *ssa.Function) (rep *FuncReport) {
 				vc.addObligation(o.St, "post", "returns-only-when-not:"+c.Label, "", Not(t), c.Props)
 			}
 		}
-		// package invariants preserved when mutable globals were written (or in init)
 		wroteGlobal := isInit
 		for c := range o.St.written {
 			if c.Kind == "global" {
 				wroteGlobal = true
 			}
 		}
-		if wroteGlobal {
+		if wroteGlobal && caseName == "" {
 			for _, inv := range invs {
 				kind := "inv-pres"
 				if isInit {
@@ -350,14 +461,18 @@ func (vc *VC) verifyFunction(fn *ssa.Function) (rep *FuncReport) {
 		}
 		if ncover < 3 && vc.dry == 0 {
 			ncover++
-			co := &Obligation{Func: key, Kind: "cover", Label: fmt.Sprintf("path%d", ncover), Mode: vc.mode.Name,
+			co := &Obligation{Func: vc.curFunc, Kind: "cover", Label: fmt.Sprintf("path%d", ncover), Mode: vc.mode.Name,
 				Goal: TTrue(), NDecl: len(vc.decls), vc: vc, Props: vc.curProps, Cover: true}
 			co.Assumes = append([]Term(nil), o.St.pc...)
-			co.Name = fmt.Sprintf("%s#cover:path%d", key, ncover)
+			co.Name = fmt.Sprintf("%s#cover:path%d", vc.curFunc, ncover)
 			vc.obls = append(vc.obls, co)
 		}
 	}
-	return rep
+}
+
+func (vc *VC) isDeclared(name string) bool {
+	vc.declInfos(len(vc.decls))
+	return vc.declNames[name]
 }
 
 func (vc *VC) pkgInvsOf(sp *ssa.Package) []*PkgInv {
@@ -372,44 +487,9 @@ func (vc *VC) pkgInvsOf(sp *ssa.Package) []*PkgInv {
 
 // initStateExcluding: state after the inits of sp's dependencies, before sp's own init.
 func (vc *VC) initStateExcluding(sp *ssa.Package) (*State, error) {
-	st := &State{mem: map[*Cell]Val{}}
-	deps := vc.eng.repoDeps(sp)
-	var err error
-	for _, p := range deps[:len(deps)-1] {
-		initFn := p.Func("init")
-		if initFn == nil {
-			vc.initDone[p] = true
-			continue
-		}
-		func() {
-			defer func() {
-				if r := recover(); r != nil {
-					if x, ok := r.(execError); ok {
-						err = fmt.Errorf("init of %s: %s", p.Pkg.Name(), x.msg)
-						return
-					}
-					if x, ok := r.(specError); ok {
-						err = fmt.Errorf("init of %s: spec: %s", p.Pkg.Name(), x.msg)
-						return
-					}
-					panic(r)
-				}
-			}()
-			vc.dry++
-			vc.initRunning = p
-			outs := vc.callFunction(initFn, nil, nil, st, nil)
-			vc.initRunning = nil
-			vc.initDone[p] = true
-			vc.dry--
-			if len(outs) != 1 || outs[0].Panic {
-				err = fmt.Errorf("init of %s has %d paths", p.Pkg.Name(), len(outs))
-				return
-			}
-			st = outs[0].St
-		}()
-		if err != nil {
-			return nil, err
-		}
+	st, err := vc.runInits(sp, false)
+	if err != nil {
+		return nil, err
 	}
 	st.written = map[*Cell]bool{}
 	vc.initRunning = sp
